@@ -69,6 +69,8 @@ type Params struct {
 	PreDelegations []PreDeleg `json:"pre_delegations,omitempty"`
 	PreEthBalances []PreBal   `json:"pre_eth_balances,omitempty"`
 	PreMature      []PreMat   `json:"pre_mature,omitempty"` // pending unstake maturities carried over by a state dump
+	// governance proposals carried over by a state dump (see genesis_proposals.go); only C14 draws them
+	PreProposals []PreProposal `json:"pre_proposals,omitempty"`
 }
 
 type PreMat struct {
@@ -198,8 +200,9 @@ func BuildGenesis(p Params) *Genesis {
 		balances = append(balances, consensus.BalanceState{Address: a, Currency: cur, Amount: *amt})
 	}
 	userAmt := oltBase(p.UserOLT)
-	for _, usr := range u.Users {
-		addBal(usr.Addr, "OLT", userAmt)
+	escrow := preEscrow(p) // contributions to genesis proposals are held in their fund records, not in the funders' balances
+	for i, usr := range u.Users {
+		addBal(usr.Addr, "OLT", preUserBalance(p, escrow, i, userAmt))
 		addBal(usr.Addr, "VT", balance.NewAmount(1000))
 	}
 	for _, v := range u.Vals {
@@ -316,6 +319,7 @@ func BuildGenesis(p Params) *Genesis {
 		Domains:       []consensus.DomainState{},
 		Fees:          []consensus.BalanceState{},
 		NetDelegators: netDeleg,
+		Proposals:     GenesisProposals(p, u),
 		Governance: governance.GovernanceState{
 			FeeOption: feeOpt,
 			ETHCDOption: ethchain.ChainDriverOption{
